@@ -142,6 +142,16 @@ pub struct Process {
 }
 
 impl Process {
+    /// Whether the process has terminated for good: it failed, or it finished and is not
+    /// persistent (a persistent process merely sleeps with its result until it is resumed).
+    pub fn is_terminated(&self) -> bool {
+        match &self.result {
+            Some(Err(_)) => true,
+            Some(Ok(_)) => !self.persistent,
+            None => false,
+        }
+    }
+
     pub fn new(persistent: bool) -> Self {
         Self {
             stack: Vec::new(),
